@@ -198,6 +198,55 @@ static void mm_report(void)
     emit(" page=%ld mmaps=%d mmlive=%d mm=%s", sysconf(_SC_PAGESIZE), g_mm_maps, g_mm_n, g_mm_plen ? g_mm_pairs : "-");
 }
 
+/* ------------------------------------------------------------------ descriptor ledger
+ * OS-level resources other than heap memory and mappings: the number of open file descriptors of the process
+ * (every slot up to the soft limit is probed with fcntl, no allocation, no descriptor used by the probe itself).
+ * It is taken at the start of every forked child (g_fd0), around every single load attempt inside a child and at the
+ * end of the child: " fds=<before>:<after>" (the damaged load alone), " fdsend=<start of child>:<end of child>".
+ * FILE streams are descriptors too (fopen without fclose shows here).  The first slots that are open at the end but
+ * were not at the start are listed in " fdnew=" (with the name /proc/self/fd gives them). */
+#include <sys/resource.h>
+static int g_fd0 = -1;
+static unsigned char g_fd0_open[4096];
+static int fd_limit(void)
+{
+    struct rlimit rl;
+    long n = 1024;
+    if (getrlimit(RLIMIT_NOFILE, &rl) == 0 && rl.rlim_cur != RLIM_INFINITY) n = (long)rl.rlim_cur;
+    if (n > 4096) n = 4096;
+    return (int)n;
+}
+static int fd_count(unsigned char *open_map)
+{
+    int i, n = 0, lim = fd_limit();
+    for (i = 0; i < lim; i++) {
+        int o = fcntl(i, F_GETFD) != -1;
+        if (open_map) open_map[i] = (unsigned char)o;
+        n += o;
+    }
+    return n;
+}
+static void fd_report(const char *sep)
+{
+    static unsigned char now[4096];
+    int n = fd_count(now), i, shown = 0, lim = fd_limit();
+    emit("%sfdsend=%d:%d", sep, g_fd0, n);
+    if (n != g_fd0) {
+        for (i = 0; i < lim && shown < 3; i++)
+            if (now[i] && !g_fd0_open[i]) {
+                char lk[64], tgt[160];
+                ssize_t r;
+                char *q;
+                snprintf(lk, sizeof(lk), "/proc/self/fd/%d", i);
+                r = readlink(lk, tgt, sizeof(tgt) - 1);
+                tgt[r > 0 ? r : 0] = 0;
+                for (q = tgt; *q; q++) if (*q == ' ' || *q == '\t' || *q == '=') *q = '_';
+                emit("%s%d>%s", shown ? "," : " fdnew=", i, tgt[0] ? tgt : "?");
+                shown++;
+            }
+    }
+}
+
 /* ------------------------------------------------------------------ utilities */
 
 static unsigned char *read_whole(const char *path, size_t *len)
@@ -336,6 +385,7 @@ static void in_child(const char *id, const char *errfile, void (*fn)(void *), vo
         out_fd = pfd[1];
         on_exit(on_exit_hook, NULL);
         alarm(timeout_s);
+        g_fd0 = fd_count(g_fd0_open);
         fn(arg);
         emit(" done=1");
         _exit(0);
@@ -404,6 +454,7 @@ static void release_held(void)
 
 /* configuration overrides of the current fault: "-" or "key=value,key=value" (documented flags: cionly, topn, ds,
  * compallsen, mmap, ...), applied to the damaged and to the intact load alike */
+static const char *g_dict_fault;     /* "dict.txt" when the current fault is in the main dictionary of the model */
 static const char *g_cfg = "-";
 static int g_cfg_bad;
 static void apply_cfg(config_t *c)
@@ -425,6 +476,11 @@ static config_t *make_config(const char *dir)
     config_set_str(c, "hmm", dir);
     config_set_str(c, "loglevel", "ERROR");
     apply_cfg(c);
+    if (g_dict_fault && dir == g_work) {       /* fault in the dictionary file itself (mapped by dict_init) */
+        char dp[2200];
+        snprintf(dp, sizeof(dp), "%s/%s", dir, g_dict_fault);
+        config_set_str(c, "dict", dp);
+    } else
     if (g_dict && strcmp(g_dict, "-")) config_set_str(c, "dict", g_dict);
     if (g_fdict && strcmp(g_fdict, "-")) config_set_str(c, "fdict", g_fdict);
     return c;
@@ -551,10 +607,11 @@ typedef struct { const char *mode, *file, *edits; } fault_t;
 static void dec_child(void *arg)
 {
     fault_t *f = (fault_t *)arg;
-    int mem = !strcmp(f->mode, "mem");
+    int mem = !strcmp(f->mode, "mem"), fda;
     decoder_t *d;
     err_set_callback(err_cb, NULL);
     first_err[0] = 0; n_err = 0;
+    fda = fd_count(NULL);
     d = mem ? load_mem(g_work) : load_mmap(g_work);
     emit(" fault=%s site=%s", d ? "acc" : "rej", first_err[0] ? first_err : "-");
     if (d) {
@@ -563,6 +620,7 @@ static void dec_child(void *arg)
     } else
         emit(" use=na");
     release_held();
+    emit(" fds=%d:%d", fda, fd_count(NULL));    /* the single (damaged) load attempt, after decoder_free */
     if (__lsan_do_recoverable_leak_check)
         emit(" leak=%d", __lsan_do_recoverable_leak_check() ? 1 : 0);
     else
@@ -575,6 +633,7 @@ static void dec_child(void *arg)
     release_held();
     emit(" cfg=%s cfgbad=%d", g_cfg, g_cfg_bad);
     mm_report();
+    fd_report(" ");
 }
 
 /* all input is read before the first fork (a child that exits must not move the shared stdin offset) */
@@ -611,6 +670,7 @@ static int dec_main(int argc, char **argv)
         if (n != 4 && n != 5) { printf("bad-op\n"); fflush(stdout); continue; }
         f.mode = w[1]; f.file = w[2]; f.edits = w[3];
         g_cfg = n == 5 ? w[4] : "-";
+        g_dict_fault = !strcmp(f.file, "dict.txt") ? f.file : NULL;
         snprintf(path, sizeof(path), "%s/%s", g_work, f.file);
         snprintf(src, sizeof(src), "%s/%s", g_pristine, f.file);
         b = read_whole(src, &len);
@@ -659,6 +719,7 @@ static void leak_suffix(void)
     else
         emit(" | leak=na site=%s", first_err[0] ? first_err : "-");
     if (g_mm_maps || g_mm_bad) mm_report();
+    fd_report(" ");
     if (g_trace_len) {
         if (write(out_fd, " trace=", 7) < 0 || write(out_fd, g_trace, g_trace_len) < 0) { }
     }
